@@ -268,6 +268,42 @@ def layout_agreement(ctx, P, rule="KAS-LAYOUT"):
                         ctx.ob(rule, "version|%s%s" % (x.op, side), other == "self->file_version[%s]" % want, tu.loc(x),
                                "`%s`: %s is compared with the slot that holds the major version" % (estr(x), side))
     ctx.ob(rule, "version|tests", vt >= 2, tu.loc(rh.node), "%d comparisons with KAS_FILE_VERSION_MAJOR (too old, too new)" % vt)
+    # the two version errors are raised for exactly major < MAJOR and major > MAJOR, whatever the minor version is
+    if major:
+        def evv(n, v0, v1):
+            n = strip(n)
+            if n is None:
+                return None
+            t = estr(n)
+            if t == "self->file_version[%s]" % major[0]:
+                return v0
+            if re.fullmatch(r"self->file_version\[\d\]", t):
+                return v1
+            if t == "KAS_FILE_VERSION_MAJOR":
+                return 10
+            if t == "KAS_FILE_VERSION_MINOR":
+                return 5
+            c = const_int(n)
+            if c is not None:
+                return c
+            if n.k == "BinaryOperator":
+                a, b = evv(n.kids[0], v0, v1), evv(n.kids[1], v0, v1)
+                if a is None or b is None:
+                    return None
+                return {"<": a < b, ">": a > b, "<=": a <= b, ">=": a >= b, "==": a == b, "!=": a != b,
+                        "&&": bool(a) and bool(b), "||": bool(a) or bool(b)}.get(n.op)
+            return None
+        for x in walk(rh.body):
+            if x.k == "IfStmt" and len(x.kids) > 1 and x.kids[1] is not None:
+                s_ = tu.src(x.kids[1])
+                for code, want in (("KAS_ERR_VERSION_TOO_NEW", lambda v0: v0 > 10), ("KAS_ERR_VERSION_TOO_OLD", lambda v0: v0 < 10)):
+                    if code in s_ and "KAS_ERR_VERSION_TOO" in s_ and s_.count("KAS_ERR_VERSION_TOO") == 1:
+                        bad = [(v0, v1) for v0 in (9, 10, 11) for v1 in (4, 5, 6)
+                               if evv(x.kids[0], v0, v1) is not None and bool(evv(x.kids[0], v0, v1)) != (want(v0) if code.endswith("NEW") or True else False)
+                               and not (code.endswith("NEW") and v0 < 10)]
+                        ctx.ob(rule, "version|%s|exact" % code, not bad, tu.loc(x),
+                               "%s is raised for exactly the major versions it names" % code if not bad else
+                               "`%s` does not raise %s for (major, minor) = MAJOR%+d, MINOR%+d" % (estr(x.kids[0])[:70], code, bad[0][0] - 10, bad[0][1] - 5))
     # several stores can follow one another on a stream: every absolute seek is relative to where THIS store started
     seeks = []
     for fn in tu.funcs.values():
